@@ -20,9 +20,9 @@ def run(ctx):
     ctx.static_and_proofs("store")
     quick = ctx.tier == "quick"
     if quick:
-        args = ["-plant", "6", "-plantcz", "3", "-submit", "4", "-dup", "12", "-interleave", "18", "-collide", "10", "-fault", "14", "-bigbatch", "2"]
+        args = ["-plant", "6", "-plantcz", "3", "-submit", "4", "-dup", "12", "-interleave", "18", "-collide", "10", "-fault", "16", "-bigbatch", "2"]
     else:
-        args = ["-plant", "60", "-plantcz", "30", "-submit", "40", "-dup", "120", "-interleave", "240", "-collide", "100", "-fault", "140", "-bigbatch", "12", "-kill", "300"]
+        args = ["-plant", "60", "-plantcz", "30", "-submit", "40", "-dup", "120", "-interleave", "240", "-collide", "100", "-fault", "160", "-bigbatch", "12", "-kill", "300"]
     cases = ctx.harness("c14", args, timeout=3000)
     if cases is None:
         ctx.evidence(dict(evaluations=0, distinct_nontrivial=0, rule="harness did not run", samples=[]))
@@ -57,7 +57,7 @@ def run(ctx):
         distribution=dict(family=sc.dist(cases, "kind") if False else fw.histogram(c["kind"] for c in cases),
                           backend=sc.dist(cases, "backend"), with_row_counts=sc.dist(cases, "counts"),
                           planted_position=fw.histogram(c["dist"].get("position") for c in cases if c["kind"] in ("plant", "plantcz", "submit")),
-                          planted_backend_x_place=fw.histogram("%s / %s" % (c["dist"]["backend"], "attempt response" if c["dist"].get("in_attempt") else "request")
+                          planted_backend_x_place=fw.histogram("%s / %s" % (c["dist"]["backend"], c["dist"].get("planted"))
                                                                for c in cases if c["kind"] in ("plant", "plantcz", "submit")),
                           planted_where=fw.histogram((c["dist"].get("where") or "").split("/")[0] + "/" + (c["dist"].get("where") or "").split(" ")[-1]
                                                      for c in cases if c["kind"] in ("plant", "plantcz", "submit")),
